@@ -7,6 +7,7 @@ from inspect import Parameter
 from enum import Enum
 from itertools import islice
 
+from numpy import ndarray as numpy_ndarray
 from jax import config as jaxconfig
 from jax.numpy import (
     eye,
@@ -80,7 +81,7 @@ def make_serializable(x):
     serializable_x : variable
         The input variable converted into a serializable format.
     """
-    if isinstance(x, ndarray):
+    if isinstance(x, (ndarray, numpy_ndarray)):
         return {"type": "jax.numpy", "data": x.tolist()}
     if isinstance(x, integer):
         return int(x)
